@@ -163,18 +163,7 @@ func c08Snapshot(c *Ctx) {
 		}
 		c.Check("S", fnName(fn)+"/a destructed account's slots leave the clean cache under the prefix-less key", nd == 1 && okd, fn.Pos(), nd, "")
 	}
-	// ---- the node set of a commit is handed over children first: the node database counts a child's reference only
-	// when the child is already there when its parent arrives (otherwise dereferencing an older root frees nodes the
-	// head state shares with it)
-	if fn := c.Fn("trie/trienode", "NodeSet", "ForEachWithOrder"); fn != nil {
-		n := 0
-		for _, in := range findInstrs(fn, CallTo(`^sort\.Sort$`, "")) {
-			if a := argPaths(callCommon(in)); len(a) == 1 && strings.HasPrefix(a[0], "call:sort.Reverse(") {
-				n++
-			}
-		}
-		c.Check("O", fnName(fn)+"/nodes are visited longest path first (children before parents)", n == 1, fn.Pos(), n, "")
-	}
+	nodeOrderRule(c)
 }
 
 // snapshotFallbackRules (shared by C08 read-back and C06 configuration independence): a value is cached and returned as
